@@ -105,13 +105,15 @@ pub fn run_reply_program(vt: &ReplyVt, prog: &Value) {
             let (mut deps, env, _info, envj) = crate::make_ctx(seq);
             #[allow(deprecated)]
             let result = if result_ok {
-                SubMsgResult::Ok(SubMsgResponse { events: events(nev), data: data_bytes(class), msg_responses: vec![] })
+                // a reply with events also carries a message response (whose value differs from the data)
+                SubMsgResult::Ok(SubMsgResponse { events: events(nev), data: data_bytes(class),
+                    msg_responses: if nev > 0 { vec![sylvia::cw_std::MsgResponse { type_url: "/verif.Msg".to_string(), value: Binary::from(b"mr".to_vec()) }] } else { vec![] } })
             } else {
                 SubMsgResult::Err(format!("sub failed {seq}"))
             };
             let gas = 1000 + seq as u64;
             let reply = Reply { id: rid.parse().unwrap(), payload: payload.clone(), gas_used: gas, result };
-            rt::emit(json!({"ev":"Reply","prog":id,"seq":seq,"via":via,"h":h,"id":rid,"result":s["result"],"events":nev,
+            rt::emit(json!({"ev":"Reply","prog":id,"seq":seq,"via":via,"h":h,"id":rid,"result":s["result"],"events":nev,"msgresp": if result_ok && nev > 0 { 1 } else { 0 },
                 "class": if result_ok { class } else { "absent" }, "data": data_bytes(if result_ok { class } else { "absent" }).map(|b| b.to_base64()).unwrap_or_default(),
                 "err_text": format!("sub failed {seq}"), "gas_used": gas.to_string(), "payload": payload.to_base64(), "env": envj}));
             let f = vt.dispatch;
